@@ -1,5 +1,7 @@
 import FcpptModel.Spec.C20
 import FcpptProofs.C20.Lemmas
+import FcpptProofs.C20.Script
+import FcpptProofs.C20.ScriptRange
 /-!
 # C20 — property theorems
 
@@ -136,6 +138,58 @@ theorem draws_hasTy (D : StdDist β δ) (ty : Ty) (G : Gen γ) (n : Nat) (v : Va
   obtain ⟨y, _, rfl⟩ := hx
   exact decorate_hasTy' ty y
 
+/-! ## programs over several objects -/
+
+/-- **Transparency of whole programs.**  Take any program over any number of `distribution::basic` objects
+and `variate`s on two generators of one type: construction by either constructor / `make_basic`, copy construction,
+copy assignment (also onto itself), moves, `swap`, draws from any object in any interleaving, `reset()`,
+`param(p)`, `==`, `min()` / `max()` / parameters / `operator<<`, variates built from a distribution in whatever
+state it is (`variate(gen, dist)`, `make_variate`, `variate(gen, params)`), copies and assignments of variates
+(the target then draws from the generator the source refers to), and direct calls of the generators in between.  It fails (uses an object that does not exist) exactly when the same program
+written against the bare standard distribution and the bare engine fails, and otherwise every observation
+is the standard program's observation with the drawn values / `min` / `max` re-wrapped by `decorate`, and
+every object ends in exactly the state of its standard counterpart — in particular a copy continues the
+sequence of its original from the original's state, and drawing never happens on a temporary copy. -/
+theorem script_transparent (D : StdDist β δ) (out : δ → String) (ty : Ty) (G : Gen γ)
+    (acts : List (Act β)) (s : ObjsF δ) (g : γ × γ) :
+    (runScriptF D out ty (basicPseudo G) acts s g).map (fun r => (r.1, r.2.1.erase, r.2.2)) =
+      (runScriptS D out G acts s.erase g).map (fun r => (r.1.map (Ev.map (decorate ty)), r.2.1, r.2.2)) :=
+  runScriptF_erase D out ty G acts s g
+
+/-- forgetting the wrappers loses nothing: two fcppt object tables with the same standard counterparts are equal -/
+theorem erase_injective (s t : ObjsF δ) (h : s.erase = t.erase) : s = t :=
+  ObjsF.erase_inj s t h
+
+/-- **A copy continues the sequence of its original.**  Right after `D_i` has been made from `D_j` (copy
+construction, copy assignment, move), a draw from `D_i` yields exactly what a draw from `D_j` would have yielded
+at that point, advances the generator the same way and leaves `D_i` in the state `D_j` would have been left in:
+nothing of the wrapped distribution's state is lost or restarted by copying. -/
+theorem copy_continues_sequence (D : StdDist β δ) (out : δ → String) (ty : Ty) (G : Gen γ) (i j : Nat) (w : Bool)
+    (s : ObjsF δ) (g : γ × γ) (d : Basic δ) (hj : s.dist j = some d) :
+    (runScriptF D out ty G [.copy i j false, .draw i w] s g).map (fun r => (r.1, r.2.1.dist i, r.2.2)) =
+      (runScriptF D out ty G [.draw j w] s g).map (fun r => (r.1, r.2.1.dist j, r.2.2)) ∧
+    (runScriptF D out ty G [.draw j w] s g).map (fun r => (r.1, r.2.1.dist j, r.2.2)) =
+      .ok ([.val (Basic.draw D ty G d (pick w g)).1], some (Basic.draw D ty G d (pick w g)).2.1,
+        put w g (Basic.draw D ty G d (pick w g)).2.2) := by
+  constructor <;> simp [runScriptF, stepF, hj, upd, Except.map]
+
+/-- **A variate holds its own copy of the distribution.**  Building `V_k` from `D_i` and drawing from `V_k`
+leaves every distribution object, `D_i` included, exactly as it was; the value drawn is the one `D_i` itself would
+have produced next from the generator the variate refers to. -/
+theorem variate_owns_copy (D : StdDist β δ) (out : δ → String) (ty : Ty) (G : Gen γ) (k i : Nat) (w : Bool)
+    (s : ObjsF δ) (g : γ × γ) (d : Basic δ) (hi : s.dist i = some d) :
+    (runScriptF D out ty G [.varD k i w, .vdraw k] s g).map (fun r => (r.1, r.2.1.dist, r.2.2)) =
+      .ok ([.val (Basic.draw D ty G d (pick w g)).1], s.dist, put w g (Basic.draw D ty G d (pick w g)).2.2) := by
+  simp [runScriptF, stepF, hi, upd, Except.map, Variate.draw, Variate.ctor]
+
+/-- **Assigning a variate re-seats its generator.**  After `V_k = V_l` a draw from `V_k` uses the generator `V_l`
+refers to (not the one `V_k` was built on) and continues `V_l`'s distribution state. -/
+theorem variate_assign_reseats (D : StdDist β δ) (out : δ → String) (ty : Ty) (G : Gen γ) (k l : Nat)
+    (s : ObjsF δ) (g : γ × γ) (v v' : Variate δ) (w w' : Bool) (hl : s.var l = some (v, w)) (hk : s.var k = some (v', w')) :
+    (runScriptF D out ty G [.varCopy k l true, .vdraw k] s g).map (fun r => (r.1, r.2.2)) =
+      .ok ([.val (Variate.draw D ty G v (pick w g)).1], put w g (Variate.draw D ty G v (pick w g)).2.2) := by
+  simp [runScriptF, stepF, hl, hk, upd, Except.map]
+
 /-! ## bounds (given the standard's contract for `uniform_int_distribution`) -/
 
 /-- **In range**: a uniform integer distribution of any result type, built for `[lo, hi]` with `lo ≤ hi`,
@@ -189,6 +243,26 @@ theorem history_in_range {D : StdDist Int δ} (hU : D.UniformInt) (ty : Ty) (G :
     | setParam p =>
       simp only [runF, boundsInForce]
       exact ih _ g _ (by simp only [Basic.setParam, Param2.convertFrom]; rw [hU.toLawful.param_setParam]) hv.1 hv.2
+
+/-- **In range over whole programs** (given the standard's contract).  For any program over any number of
+uniform integer distributions and variates — copies, assignments, swaps, `reset()`, `param(p)`, variates built
+from used distributions, copies of variates, in any interleaving — that asks only for non-empty intervals and
+does not use an object that does not exist: every drawn value lies in the interval that had been requested
+*for the object it was drawn from* at that moment (an interval travels with every copy), and `min()`, `max()`
+and the parameters of the wrapped distribution report exactly that interval.  `boundsScript` computes the
+requested intervals from the program text alone. -/
+theorem script_in_range {D : StdDist Int δ} (hU : D.UniformInt) (out : δ → String) (ty : Ty) (G : Gen γ)
+    (acts : List (Act Int)) (g : γ × γ) (r : List (Ev (DVal Int) Int) × ObjsF δ × (γ × γ))
+    (hr : runScriptF D out ty (basicPseudo G) acts ObjsF.empty g = .ok r) (hv : ∀ a ∈ acts, ActValid a) :
+    EvsWithin r.1 (boundsScript acts Bnds.empty) :=
+  (runScriptF_within hU out ty (basicPseudo G) acts ObjsF.empty g Bnds.empty r hr (tracks_empty D) hv).1
+
+/-- the same from any state whose objects hold the intervals listed in `b` -/
+theorem script_in_range_from {D : StdDist Int δ} (hU : D.UniformInt) (out : δ → String) (ty : Ty) (G : Gen γ)
+    (acts : List (Act Int)) (s : ObjsF δ) (g : γ × γ) (b : Bnds) (r : List (Ev (DVal Int) Int) × ObjsF δ × (γ × γ))
+    (hr : runScriptF D out ty (basicPseudo G) acts s g = .ok r) (ht : Tracks D s b) (hv : ∀ a ∈ acts, ActValid a) :
+    EvsWithin r.1 (boundsScript acts b) ∧ Tracks D r.2.1 (acts.foldl (fun b a => (boundsStep a b).2) b) :=
+  runScriptF_within hU out ty (basicPseudo G) acts s g b r hr ht hv
 
 /-- **Enum distributions yield enumerators**: `make_uniform_enum<E>()` for an enum whose largest
 enumerator has value `maxValue` only yields `E(x)` with `0 ≤ x ≤ maxValue`. -/
@@ -262,6 +336,32 @@ theorem index_valid {α : Type} {D : StdDist Int δ} (hU : D.UniformInt) (G : Ge
   cases hr'
   exact fun ei hei => (hall ei hei).1
 
+/-- **Container programs never index out of bounds.**  Any program over several `uniform_container`s on one
+container of size `n` — made by the factory or by the public constructor with an index interval inside
+`[0, n)`, copied and assigned at will, drawn from in any interleaving, while the program overwrites elements
+directly or through the references the draws return — either uses a wrapper that does not exist or runs to
+the end: the `oob` fault of `operator[]` is unreachable, every index drawn is `< n`, and the wrappers keep
+holding intervals inside the container (`CInv`). -/
+theorem container_script_safe {α : Type} {D : StdDist Int δ} (hU : D.UniformInt) (G : Gen γ) (n : Nat)
+    (acts : List (CAct α)) (c : List α) (s : Nat → Option (Basic δ)) (g : γ) (hinv : CInv D n c s)
+    (hv : ∀ a ∈ acts, CActValid n a) :
+    runCScript D (basicPseudo G) acts c s g = .error .emptyDeref ∨
+      ∃ r, runCScript D (basicPseudo G) acts c s g = .ok r ∧ CInv D n r.2.1 r.2.2.1 ∧ ∀ ev ∈ r.1, CEv.idxLt n ev :=
+  runCScript_safe hU (basicPseudo G) n acts c s g hinv hv
+
+/-- one step: what a draw returns *is* the element the container holds at the drawn index at that moment (the
+wrapper refers to the container, it has no copy of it), and the factory reports a wrapper iff the container is
+not empty -/
+theorem container_step_elem {α : Type} {D : StdDist Int δ} (hU : D.UniformInt) (G : Gen γ) (n : Nat) (a : CAct α)
+    (c : List α) (s : Nat → Option (Basic δ)) (g : γ) (hinv : CInv D n c s) (hv : CActValid n a) :
+    cstep D (basicPseudo G) a c s g = .error .emptyDeref ∨
+      ∃ r, cstep D (basicPseudo G) a c s g = .ok r ∧ CInv D n r.2.1 r.2.2.1 ∧ ∀ ev ∈ r.1, CEvOk n c ev :=
+  cstep_safe hU (basicPseudo G) n a c s g hinv hv
+
+/-- the empty table of wrappers satisfies the invariant for every container -/
+theorem container_inv_start {α : Type} (D : StdDist Int δ) (c : List α) : CInv D c.length c (fun _ => none) :=
+  ⟨rfl, fun _ _ h => by simp at h⟩
+
 /-! ## both ends -/
 
 /-- "Reaches both ends" is inherited from the standard distribution in both directions: the fcppt sequence
@@ -281,8 +381,8 @@ theorem ends_transfer (D : StdDist β δ) (ty : Ty) (G : Gen γ) (a b : β) (n :
 
 /-! ## the contracts are satisfiable; concrete runs -/
 
-/-- the exactly specified distribution of the harness (`mod_dist`) fulfils the standard's contract, so the
-range theorems are not vacuous -/
+/-- the exactly specified (stateful) distribution of the harness (`mod_dist`) fulfils the standard's contract, so
+the range theorems are not vacuous -/
 theorem modDist_contract : StdDist.UniformInt modDist where
   param_ofParam := fun _ => rfl
   param_setParam := fun _ _ => rfl
@@ -293,16 +393,16 @@ theorem modDist_contract : StdDist.UniformInt modDist where
   draw_mem := by
     intro γ G d g h
     simp only [modDist] at h ⊢
-    have hpos : 0 < d.2 - d.1 + 1 := by omega
-    have h1 := Int.emod_nonneg (Int.ofNat (G.next g).1) (Int.ne_of_gt hpos)
-    have h2 := Int.emod_lt_of_pos (Int.ofNat (G.next g).1) hpos
+    have hpos : 0 < d.1.2 - d.1.1 + 1 := by omega
+    have h1 := Int.emod_nonneg (Int.ofNat ((G.next g).1 + d.2 * (d.2 + 1) / 2)) (Int.ne_of_gt hpos)
+    have h2 := Int.emod_lt_of_pos (Int.ofNat ((G.next g).1 + d.2 * (d.2 + 1) / 2)) hpos
     omega
 
 /-- a strong typedef of a strong typedef of `int` over `[-3, 5]` from the counter engine seeded with 10 -/
 example :
     (Variate.draws modDist (.strong (.strong .base)) (basicPseudo ctrEngine) 4
       (Variate.ctor (Basic.ctor modDist ⟨decorate (.strong (.strong .base)) (-3), decorate (.strong (.strong .base)) 5⟩)) 10).1
-      = [.strong (.strong (.base (-2))), .strong (.strong (.base (-1))), .strong (.strong (.base 0)), .strong (.strong (.base 1))] := by
+      = [.strong (.strong (.base (-2))), .strong (.strong (.base 0)), .strong (.strong (.base 3)), .strong (.strong (.base (-2)))] := by
   decide
 
 /-- a history on a strong typedef: draw from `[0,3]`, `param([10,11])`, draw, `reset()`, draw -/
@@ -310,7 +410,7 @@ example :
     (runF modDist (.strong .base) (basicPseudo ctrEngine)
       [.draw, .setParam ⟨.strong (.base 10), .strong (.base 11)⟩, .draw, .reset, .draw]
       (Basic.ctor modDist ⟨.strong (.base 0), .strong (.base 3)⟩) 6).1
-      = [.strong (.base 2), .strong (.base 11), .strong (.base 10)] ∧
+      = [.strong (.base 2), .strong (.base 10), .strong (.base 10)] ∧
     boundsInForce [.draw, .setParam ⟨.strong (.base 10), .strong (.base 11)⟩, .draw, .reset, .draw] (0, 3)
       = [(0, 3), (10, 11), (10, 11)] := by
   decide
@@ -322,22 +422,61 @@ example : (makeUniformContainer modDist [10, 20, 30]).isSome = true ∧ (makeUni
 example :
     (match makeUniformContainer modDist [10, 20, 30] with
      | some u => (UniformContainer.draws modDist (basicPseudo ctrEngine) 4 u 5).toOption.map (·.1)
-     | none => none) = some [(30, 2), (10, 0), (20, 1), (30, 2)] := by
+     | none => none) = some [(30, 2), (20, 1), (20, 1), (30, 2)] := by
   decide
 
 /-- a wrapped distribution that breaks the standard's contract makes the container wrapper fault: the
 hypothesis `hU` of `container_elem_mem` is needed -/
 example :
-    let bad : StdDist Int (Int × Int) := { modDist with draw := fun {_} _ d g => (d.2 + 1, d, g) }
+    let bad : StdDist Int ((Int × Int) × Nat) := { modDist with draw := fun {_} _ d g => (d.1.2 + 1, d, g) }
     (match makeUniformContainer bad [10, 20, 30] with
      | some u => (UniformContainer.draw bad ctrEngine u 0).toOption.isNone
      | none => false) = true := by
   decide
 
 /-- an off-by-one variant of `make_uniform_indices` (`max(size())`) would violate `index_valid`: with the
-counter engine the third draw indexes past the end -/
+counter engine the seventh draw indexes past the end -/
 example :
-    (UniformContainer.draws modDist ctrEngine 4 (UniformContainer.ctor modDist [10, 20, 30] ⟨.base 0, .base 3⟩) 0).toOption.isNone = true := by
+    (UniformContainer.draws modDist ctrEngine 8 (UniformContainer.ctor modDist [10, 20, 30] ⟨.base 0, .base 3⟩) 0).toOption.isNone = true := by
+  decide
+
+/-- a program with copies: `D1` is copy-constructed from `D0` after two draws and continues `D0`'s sequence from
+`D0`'s state (`k = 2`), both on the one generator; comparing them tells the states apart -/
+example :
+    (runScriptF modDist modOut (.strong .base) (basicPseudo ctrEngine)
+      [.newP 0 ⟨.strong (.base 0), .strong (.base 9)⟩, .draw 0 false, .draw 0 false, .copy 1 0 false, .eq 0 1, .draw 1 false, .eq 0 1,
+        .draw 0 false, .eq 0 1, .look 1] ObjsF.empty (5, 0)).toOption.map (·.1)
+      = some [.val (.strong (.base 5)), .val (.strong (.base 7)), .eq true, .val (.strong (.base 0)), .eq false,
+          .val (.strong (.base 1)), .eq true, .look (.strong (.base 0)) (.strong (.base 9)) (0, 9) "0 9 3"] ∧
+    boundsScript [.newP 0 ⟨.strong (.base 0), .strong (.base 9)⟩, .draw 0 false, .draw 0 false, .copy 1 0 false, .eq 0 1, .draw 1 false,
+        .eq 0 1, .draw 0 false, .eq 0 1, .look 1] Bnds.empty
+      = [some (0, 9), some (0, 9), none, some (0, 9), none, some (0, 9), none, some (0, 9)] := by
+  decide
+
+/-- drawing from a temporary copy (the seeded regression `C20-2`) is refuted by the model: the second value would
+repeat the state `k = 0` -/
+example :
+    let lossy : List (Act Int) := [.newP 0 ⟨.base 0, .base 9⟩, .copy 1 0 false, .draw 1 false, .copy 1 0 false, .draw 1 false]
+    let right : List (Act Int) := [.newP 0 ⟨.base 0, .base 9⟩, .draw 0 false, .draw 0 false]
+    (runScriptF modDist modOut .base (basicPseudo ctrEngine) lossy ObjsF.empty (5, 0)).toOption.map (·.1) = some [.val (.base 5), .val (.base 6)] ∧
+    (runScriptF modDist modOut .base (basicPseudo ctrEngine) right ObjsF.empty (5, 0)).toOption.map (·.1) = some [.val (.base 5), .val (.base 7)] := by
+  decide
+
+/-- assigning a variate re-seats its generator: `V1` (on the second generator, at 100) is assigned `V0` (on the
+first, at 5) and from then on draws from the first generator, continuing `V0`'s distribution state -/
+example :
+    (runScriptF modDist modOut .base (basicPseudo ctrEngine)
+      [.varP 0 ⟨.base 0, .base 9⟩ false, .varP 1 ⟨.base 0, .base 9⟩ true, .vdraw 0, .vdraw 1, .varCopy 1 0 true, .vdraw 1, .vdraw 0,
+        .raw true, .raw false] ObjsF.empty (5, 100)).toOption.map (·.1)
+      = some [.val (.base 5), .val (.base 0), .val (.base 7), .val (.base 8), .raw 101, .raw 8] := by
+  decide
+
+/-- a container program: the wrapper sees the element written after it was made, and the program writes through
+the reference a draw returns -/
+example :
+    (runCScript modDist (basicPseudo ctrEngine) [.make 0, .draw 0, .write 2 99, .copy 1 0 false, .draw 1, .drawWrite 0 7]
+      [10, 20, 30] (fun _ => none) 5).toOption.map (fun r => (r.1, r.2.1))
+      = some ([.made true, .elem 30 2, .elem 20 1, .elem 99 2], [10, 20, 7]) := by
   decide
 
 end Fcppt.C20
